@@ -19,4 +19,6 @@ EXTRAS = [
     lambda rep, fb, tier: origin.rule_rebase(rep, fb),
     lambda rep, fb, tier: pyrules.rule_py_reducers(rep),
     lambda rep, fb, tier: forward.rule_same_name(rep, fb, select=lambda f: "reduce" in f["name"], floor=50, name="FORWARD.same-name:reduce"),
+    lambda rep, fb, tier: __import__("vf.rules.methodrules", fromlist=["x"]).rule_index_content(rep, fb),
+    lambda rep, fb, tier: __import__("vf.rules.methodrules", fromlist=["x"]).rule_option_shifts(rep, fb),
 ]
